@@ -586,6 +586,69 @@ static void rot_case(uint64_t idx, void *vctx)
     if (!vf_in_confirm) vf_outcome(hh);
 }
 
+/* ---------- covering rotations with long spans: the dedicated rotation blitters work in cache-line tiles (64 bytes of destination row): an unaligned
+ * leading part, whole tiles, a trailing part.  Every combination of (row alignment, span length) around those boundaries, per pixel size. ---------- */
+#define WS 150
+static const int RW_XOFF[6] = { 0, 1, 5, 15, 17, 33 };
+static const int RW_W[14] = { 1, 15, 16, 17, 18, 31, 33, 47, 49, 64, 65, 66, 97, 131 };
+static void rot_wide_case(uint64_t idx, void *vctx)
+{
+    (void)vctx;
+    int dims[5] = { 7, 4, 6, 14, 2 }, d[5];
+    vf_decode(idx, dims, 5, d);
+    int ri = d[0], fi = d[1], xoff = RW_XOFF[d[2]], dw = RW_W[d[3]], dh = 3;
+    pixman_transform_t t; memset(&t, 0, sizeof t); t.matrix[2][2] = FX1;
+    t.matrix[0][0] = ROTM[ri][0]; t.matrix[0][1] = ROTM[ri][1]; t.matrix[1][0] = ROTM[ri][2]; t.matrix[1][1] = ROTM[ri][3];
+    int32_t fr = d[4] ? FX1 / 4 : 0;
+    t.matrix[0][2] = (ROTM[ri][0] < 0 ? dw + 2 : ROTM[ri][1] < 0 ? dh + 2 : 2) * FX1 + fr;
+    t.matrix[1][2] = (ROTM[ri][2] < 0 ? dw + 3 : ROTM[ri][3] < 0 ? dh + 3 : 3) * FX1 + fr;
+    char tdesc[160]; snprintf(tdesc, sizeof tdesc, "%s [%d %d %d; %d %d %d; 0 0 65536]", ROTN[ri], t.matrix[0][0], t.matrix[0][1], t.matrix[0][2], t.matrix[1][0], t.matrix[1][1], t.matrix[1][2]);
+    static uint32_t raw[WS * WS];
+    for (int y = 0; y < WS; y++) for (int x = 0; x < WS; x++) raw[y * WS + x] = src_raw(&FM[fi], WS, x, y);
+    int stride = ph_stride_for(FM[fi].bpp, WS) + 4;
+    uint8_t *sbuf = calloc((size_t)stride, WS);
+    for (int y = 0; y < WS; y++) for (int x = 0; x < WS; x++) ph_put_pixel(sbuf + (size_t)y * stride, FM[fi].bpp, x, raw[y * WS + x]);
+    pixman_image_t *src = pixman_image_create_bits(FM[fi].code, WS, WS, (uint32_t *)sbuf, stride);
+    pixman_image_set_transform(src, &t);
+    pixman_image_set_filter(src, PIXMAN_FILTER_NEAREST, NULL, 0);
+    rsrc_t rs = { WS, WS, FM[fi], raw, PIXMAN_REPEAT_NONE };
+    uint64_t ev = 0, hh = 0; char cfgn[64];
+    for (int di = 0; di < 2; di++) for (int ci = 0; ci < 3; ci++) {
+        const ph_fmt_t *DF = di ? &FM[fi] : &FM[0];
+        int dstride = 832, DHT = dh + 2; uint8_t *dbuf = NULL;
+        if (posix_memalign((void **)&dbuf, 64, (size_t)dstride * DHT)) { vf_harderr("posix_memalign"); exit(2); }
+        memset(dbuf, 0xa5, (size_t)dstride * DHT);
+        pixman_image_t *dst = pixman_image_create_bits(DF->code, 200, DHT, (uint32_t *)dbuf, dstride);
+        ph_set_cfg(CF[ci]);
+        pixman_image_composite32(PIXMAN_OP_SRC, src, NULL, dst, 0, 0, 0, 0, xoff, 1, dw, dh);
+        pixman_image_unref(dst); vf_count_libcalls(1); ev++;
+        for (int y = -1; y <= dh && !vf_failed(); y++) for (int x = -1; x <= dw; x++) {
+            if (xoff + x < 0) continue;
+            uint32_t got = ph_get_pixel(dbuf + (size_t)(y + 1) * dstride, DF->bpp, xoff + x), want;
+            if (x < 0 || y < 0 || x >= dw || y >= dh) {
+                uint32_t bgw = 0xa5a5a5a5u; want = ph_get_pixel((const uint8_t *)&bgw, DF->bpp, 0);
+                if (DF->bpp < 32) want = 0xa5a5a5a5u & ((1u << DF->bpp) - 1);
+            } else {
+                int64_t cx = (int64_t)(2 * x + 1) * (FX1 / 2), cy = (int64_t)(2 * y + 1) * (FX1 / 2);
+                int64_t vx = ((int64_t)t.matrix[0][0] * cx + (int64_t)t.matrix[0][1] * cy + (int64_t)t.matrix[0][2] * FX1 + 0x8000) >> 16;
+                int64_t vy = ((int64_t)t.matrix[1][0] * cx + (int64_t)t.matrix[1][1] * cy + (int64_t)t.matrix[1][2] * FX1 + 0x8000) >> 16;
+                want = ph_from_8888(DF, ref_nearest(&rs, vx, vy)) & ph_defined_mask(DF); got &= ph_defined_mask(DF);
+            }
+            if (want != got) {
+                vf_violation("c08-cover-rotation-long-span-mismatch", "source %s %dx%d (all samples inside) nearest, transform %s -> %s destination (64-byte aligned rows), request at x=%d %dx%d PIXMAN_DISABLE=[%s]: "
+                             "pixel (%d,%d) of the request = %x, reference %x", FMN[fi], WS, WS, tdesc, di ? FMN[fi] : "a8r8g8b8", xoff, dw, dh, ph_cfg_name(CF[ci], cfgn, sizeof cfgn), x, y, got, want);
+                break;
+            }
+            if (ci == 0) hh = vf_mix(hh, got);
+        }
+        free(dbuf);
+        if (vf_failed()) break;
+    }
+    pixman_image_unref(src); free(sbuf);
+    vf_count_eval(ev); vf_count_nontrivial(ev);
+    if (!vf_in_confirm) vf_outcome(hh);
+}
+
 int main(int argc, char **argv)
 {
     vf_init(argc, argv, "C08", "exploration");
@@ -607,11 +670,12 @@ int main(int argc, char **argv)
     vf_space_run("wide-pipeline-affine", (uint64_t)7 * 3 * 3 * 3 * 8 * 3, wide_case, &ca);
     vf_space_run("wide-pipeline-projective", 8 * 4 * 8 * 3, wide_case, &cp);
     vf_space_run("covering-rotations-and-flips", 7 * 7 * 7 * 4 * 2 * 2, rot_case, NULL);
+    vf_space_run("covering-rotations-long-spans", 7 * 4 * 6 * 14 * 2, rot_wide_case, NULL);
     big_ctx cb = { th };
     vf_space_run("wide-and-tall-sources", 3 * 7 * 6 * 4 * 2, big_case, &cb);
     static char b[1500];
     snprintf(b, sizeof b, "%llu affine transforms (m00 x m11 x m01 x m10 x tx x ty alphabets incl. +-1/2, +-1, 1+e, 2, 1/3 and translations 0, +-e, 1/2-e, 1/2, -1/2, 1, 3-e) + 768 projective; "
-             "%d filters (nearest, bilinear, 7 convolution kernels incl. negative lobes, %d separable tables); 4 repeats; sources 1x1 2x2 3x2 4x4 x 4 formats (every other image first drawn from with an integer-translation twin of the transform); 3 configurations; covering quarter/half turns and flips: 7 matrices x 7x7 translation fractions (0, e, 1/2-e, 1/2, 1/2+e, 1-e, 1/4) x 4 formats x nearest/bilinear x 2 request sizes x same-format and a8r8g8b8 destinations x 3 configurations; wide pipeline: 4536 affine + 768 projective transforms x 3 sizes x 3 format pairs (a8r8g8b8->rgba_float, a2r10g10b10->a8r8g8b8, rgba_float->a8r8g8b8) x {nearest, bilinear, conv2x2, conv3x1} x 4 repeats; wide/tall sources: sizes 32766, 32765, 32700, 20000 (x2 and 2x; the library drops transformed requests on sources of 32767 or more) x 6 scales x 7 first-sample positions "
+             "%d filters (nearest, bilinear, 7 convolution kernels incl. negative lobes, %d separable tables); 4 repeats; sources 1x1 2x2 3x2 4x4 x 4 formats (every other image first drawn from with an integer-translation twin of the transform); 3 configurations; covering quarter/half turns and flips: 7 matrices x 7x7 translation fractions (0, e, 1/2-e, 1/2, 1/2+e, 1-e, 1/4) x 4 formats x nearest/bilinear x 2 request sizes x same-format and a8r8g8b8 destinations x 3 configurations; the same 7 matrices with spans of 1..131 pixels (14 lengths around 16/32/64-pixel tiles) at 6 row alignments of a 64-byte aligned destination x 4 formats x 2 translation fractions x 2 destinations x 3 configurations; wide pipeline: 4536 affine + 768 projective transforms x 3 sizes x 3 format pairs (a8r8g8b8->rgba_float, a2r10g10b10->a8r8g8b8, rgba_float->a8r8g8b8) x {nearest, bilinear, conv2x2, conv3x1} x 4 repeats; wide/tall sources: sizes 32766, 32765, 32700, 20000 (x2 and 2x; the library drops transformed requests on sources of 32767 or more) x 6 scales x 7 first-sample positions "
              "(left of the image, at its start, middle, end, end of the coordinate range) x 3 sub-pixel offsets x nearest/bilinear x 4 repeats x 4 formats x {SRC, OVER} x {a8r8g8b8, r5g6b5} destinations x 3 configurations",
              (unsigned long long)naff, NFIL, NFIL - 9);
     vf_bounds = b;
